@@ -146,6 +146,19 @@ fn gen(r: &mut Rng, tier: &Tier, out: &mut Vec<String>) {
             if c % 5 == 0 { let mut t = rec.clone(); t.push(r.next() as u8); out.push(c_line(&cut_at(&t, &[c]))); }
         }
     }
+    // content that looks like the start of a record (16 03 0x ..) planted in the client random, segment cut exactly there
+    for rec in recs.iter().take(tier.scale(8, 40)) {
+        if rec.len() < 60 { continue; }
+        for v in [1u8, 3, 4] { for o in [11usize, 20, 38] {
+            let mut b = rec.clone();
+            b[o] = 0x16; b[o + 1] = 0x03; b[o + 2] = v; b[o + 3] = 0x00; b[o + 4] = 0x20;
+            for cuts in [vec![o], vec![7, o], vec![o, o + 9], vec![o + 1]] {
+                let ch = cut_at(&b, &cuts);
+                out.push(c_line(&ch));
+                out.push(p_line(8, &ch.iter().map(|x| (6u8, x.clone())).collect::<Vec<_>>()));
+            }
+        }}
+    }
     // random 3..8 cuts, tails of 1 byte / another record / another hello, one-byte chunks
     for _ in 0..tier.scale(600, 6000) {
         let rec = r.pick(&recs).clone();
